@@ -84,6 +84,21 @@ def wide_election(rnd, n):
                 droop=None)
 
 
+#: small valid files at the numeric edges of the format (all accepted by the package)
+EDGE_BASES = [
+    '1 1\n1 1 0\n0\n"Solo"\n"one candidate"\n',
+    '2 2\n1 1 2 0\n1 2 0\n0\n"A"\n"B"\n"seats equal candidates"\n',
+    '3 1\n-3\n1 1 0\n1 2 0\n0\n"A"\n"B"\n"C"\n"ballots equal eligible"\n',
+    '03 01\n01 1 2 0\n2 02 3 0\n1 3 0\n0\n"A"\n"B"\n"C"\n"leading zeros"\n',
+    '3 1\n2 0\n1 1 2 0\n2 2 0\n1 0\n1 3 0\n0\n"A"\n"B"\n"C"\n"empty rankings are ignored"\n',
+    '4 1\n[withdrawn 1 2 3]\n3 4 1 0\n0\n"A"\n"B"\n"C"\n"D"\n"all but one withdrawn"\n',
+    '3 2\n[tie 3 3 2 1]\n2 1 2 0\n2 2 3 0\n1 3 0\n0\n"A"\n"B"\n"C"\n"tie list with a repeat"\n',
+    '3 1\n1000000 1 0\n999999 2 0\n1 3 2 0\n0\n"A"\n"B"\n"C"\n"big multipliers"\n"src"\n"cmt"\n',
+    '2 1\n(a) 1 0\n(b b) 2 1 0\n0\n"A"\n"B"\n"ids"\n',
+    '3 1 [nick x y z] [tie z y x] -2 1 x 0 1 z x 0 0 "A" "B" "C" "one line"',
+]
+
+
 def gen_bases(R, seed, tier, count, size_cap):
     """[(name, bytes)]: corpus files not larger than size_cap, then `count` generated files.
 
@@ -91,6 +106,7 @@ def gen_bases(R, seed, tier, count, size_cap):
     (255/256/257 candidates).
     """
     out = [('corpus/' + n, d) for n, d in gen.load_corpus(R.path, size_cap)]
+    out += [('edge/%d' % i, t.encode('utf-8')) for i, t in enumerate(EDGE_BASES)]
     for i in range(count):
         rnd = rng(seed, 'disk-base', i)
         rule = gen.RULES[i % len(gen.RULES)]
@@ -220,6 +236,8 @@ def gen_fault(rnd, data, naux):
         return ['latin1', rnd.randint(0, n), rnd.randrange(0x80, 0x100)]
     if r < 0.98:
         return ['foreign', soup(rnd).hex()]
+    if r < 0.99:
+        return ['blank']
     return ['empty']
 
 
@@ -254,6 +272,8 @@ def enumerate_faults(data):
     for io in IO_FAULTS:
         yield [], io
     yield [['empty']], None
+    yield [['blank']], None
+    yield [], 'PATH-EMPTY'
 
 
 # --------------------------------------------------------------------------
@@ -340,6 +360,7 @@ def evaluate(R, data, io_fault=None, entry='path', clock=False):
         except UnicodeDecodeError:
             entry = 'path'
     res['entry'] = entry
+    sim_path = '' if io_fault == 'PATH-EMPTY' else SIM_PATH     # ElectionProfile(path='') names no file at all
     p = None
     exc = None
     budget = parser_budget(len(data))
@@ -352,12 +373,12 @@ def evaluate(R, data, io_fault=None, entry='path', clock=False):
             if clock:
                 with ParseClock(R, budget) as pc:
                     try:
-                        p = (R.droop.profile.ElectionProfile(path=SIM_PATH) if entry == 'path'
+                        p = (R.droop.profile.ElectionProfile(path=sim_path) if entry == 'path'
                              else R.droop.profile.ElectionProfile(data=text))
                     finally:
                         res['steps'] = pc.n
             else:
-                p = (R.droop.profile.ElectionProfile(path=SIM_PATH) if entry == 'path'
+                p = (R.droop.profile.ElectionProfile(path=sim_path) if entry == 'path'
                      else R.droop.profile.ElectionProfile(data=text))
     except Hang:
         signal.setitimer(signal.ITIMER_REAL, 0)
